@@ -181,7 +181,7 @@ def lim1b(run):
                     continue
                 n += 1
                 guarded = any((t.get("resolved") or "").endswith("check_recursion_limit") for bb in lp for t in [f.blocks[bb]["term"]] if t["k"] == "call")
-                run.check(guarded, R, "LIM1b|%s|%s" % (f.id, d["name"]), f.loc(st["span"]),
+                run.check(guarded, R, "LIM1b|%s|loop-carried-expr" % f.id, f.loc(st["span"]),
                           "%s: the loop that nests `%s` deeper on every iteration checks the recursion limit" % (f.id, d["name"]),
                           "%s: every iteration of the loop wraps `%s` into a new Expr node (a chain `a op b op c ...` of n operators becomes a tree of depth n) without counting against the nesting limit; the recursive walkers of the tree (evaluation, static inspection, drop) then recurse n deep and overflow the stack" % (f.id, d["name"]))
     run.floor(R, "loop-carried Expr accumulators", n, 1)
